@@ -3,24 +3,44 @@ from props import prop
 prop(
     "C15",
     title="No service is processed before the handshake or after channel close",
-    technique="runtime monitor: four-state reference automaton over the responses of the real server connection loop "
-              "(TcpTransport::run on a loopback socket), every frame sequence up to the bound enumerated",
-    rule="case = a sequence over {HEL, OPN(Issue), OPN(Renew), MSG(GetEndpoints), MSG(CreateSession), MSG(Read), CLO} with "
-         "valid contents (the peer uses the channel/token ids the server issued, increasing sequence numbers, unique request "
-         "ids), sent frame by frame in lock step to a fresh connection served by the real reading/writing tasks; all "
-         "sequences up to length 5 (thorough 6) are decided: a sequence is run on a socket unless a proper prefix was "
-         "observed to end with the server closing the connection (EOF), in which case nothing can be answered to the rest. "
-         "distinct = (frame classes, reference state path, response/EOF shape per frame)",
+    technique="runtime monitor: four-state reference automaton over two observation points of the real server connection loop "
+              "(TcpTransport::run on a loopback socket): the responses written to the socket and the server's own cumulated "
+              "session count (ServerMetrics / server diagnostics); every frame sequence up to the bound enumerated, sent in "
+              "lock step and with every short tail written back to back in one write",
+    rule="case = a sequence over {HEL, OPN(Issue), OPN(Renew), OPN(Issue, security mode Invalid), OPN(Issue, protocol version "
+         "other than the HEL's), MSG(GetEndpoints), MSG(CreateSession), MSG(Read), CLO} plus an arrival pattern. The two "
+         "extra OPN kinds are requests the server turns down with a fault without issuing a channel. Contents are valid for "
+         "the peer's view of the connection (the channel/token ids the server issued so far, increasing sequence numbers, "
+         "unique request ids). Lock-step pattern: frame by frame to a fresh connection served by the real reading/writing "
+         "tasks, waiting for each answer or EOF; all sequences up to length 5 (thorough 6) are decided: a sequence is run "
+         "on a socket unless a proper prefix was observed to end with the server closing the connection (EOF), in which "
+         "case nothing can be answered to the rest. Burst pattern: for the empty prefix and every lock-step prefix after "
+         "which the connection is still open, every sequence of 2..3 (thorough 2..4) further frames (total length within "
+         "the bound) is written in ONE write, so that the server's reader finds the frames in its buffer together; then the "
+         "peer reads until every frame of the burst is answered or EOF. "
+         "distinct = (arrival pattern, frame classes, reference state path, response/EOF/session shape per frame, sessions "
+         "created by the burst)",
     design_ref="4 C15",
-    level_text="Responses are attributed to frames by request id (ACK to the latest HEL). The reference automaton "
-               "(new, hello-done, channel-open, closed) forbids: anything but an ACK-to-HEL in new; any answer to MSG/CLO "
-               "and anything but OpenSecureChannelResponse/ServiceFault to OPN in hello-done; anything after a CLO or "
-               "after the server closed. ERR frames and closing the connection are never violations. Held means no "
-               "forbidden response on any enumerated sequence.",
-    level_note="Observation is what the server writes to the socket; a request processed without any answer is invisible. "
-               "Contents are the fixed valid ones of the alphabet (None security); secured channels and malformed frames "
-               "are out of scope here. A silence timeout (250 ms, then 10 ms) only bounds the wait on a server that ignores a frame; it never runs out on the real tree and never decides a verdict (answers are attributed by request id), a 150 s / 900 s budget turns an exploding enumeration into inconclusive.",
-    shards={"quick": 4, "thorough": 7},
+    level_text="Responses are attributed to frames by request id (ACKs to the HELs in order). The server's cumulated session "
+               "count is sampled after every lock-step frame and after the connection task has ended (so it also counts "
+               "requests whose responses were never written). The reference automaton (new, hello-done, channel-open, "
+               "closed) forbids: anything but an ACK-to-HEL in new; any answer to MSG/CLO and anything but "
+               "OpenSecureChannelResponse/ServiceFault to OPN in hello-done (an OPN answered with a fault leaves the state "
+               "at hello-done); anything after a CLO or after the server closed; a session created while a lock-step frame "
+               "other than a CreateSession on an open channel was being served; and more sessions created out of a burst "
+               "than it holds CreateSession frames that met an open channel. Inside a burst the state walk is permissive "
+               "where the confirming answer may legitimately be missing (HEL taken as acknowledged, an OPN in hello-done "
+               "without a visible answer taken as having opened), a CLO closes. ERR frames and closing the connection are "
+               "never violations. Held means no forbidden response and no forbidden session on any enumerated case.",
+    level_note="Of the three service requests only CreateSession leaves a server-side trace (the session count); a GetEndpoints "
+               "or Read that is processed without any answer is still invisible. Frames of a burst that follow an OPN(Issue) "
+               "of the same burst carry the ids the peer knew when it wrote the burst, so the server refuses them; requests "
+               "pipelined behind an open are therefore only exercised through the lock-step prefixes. One write on a "
+               "loopback socket reaches the server's reader as one read in practice, not by guarantee; a split burst only "
+               "loses reach, it cannot raise an alarm. "
+               "Contents are the fixed ones of the alphabet (None security); secured channels and malformed frames "
+               "are out of scope here. A silence timeout (250 ms, then 10 ms) only bounds the wait on a server that ignores a frame; it never runs out on the real tree and never decides a verdict (answers are attributed by request id), a 150 s / 900 s budget turns an exploding enumeration into inconclusive; so does a connection task that does not end after the peer hung up (session counts would not be attributable).",
+    shards={"quick": 8, "thorough": 12},
     exhaustive={"quick": True, "thorough": True},
     timeout={"quick": 300, "thorough": 1200},
 )
@@ -88,8 +108,13 @@ prop(
               "accept/reject decisions of the real server TcpTransport (cfg hook) and the real client TransportState for "
               "replayed, reordered, duplicated and renumbered chunks built with the real chunk encoder",
     rule="sender case = history of 1..12 (server 1..20) messages of 1..6 chunks on a None or Sign channel, drained through full, "
-         "fixed-size and random partial writes; the history ends at the first refused write (both real loops close the "
-         "connection then). receiver case = history of presentations on a fresh connection (server: real HEL+OPN on a None "
+         "fixed-size and random partial writes, under no limits, a max_message_size, a max_chunk_count, or both (a request "
+         "may fit the one and exceed the other). Half of the histories end at the first refused write (both real loops "
+         "close the connection then); the other half keep writing to the same SendBuffer / MessageWriter after a refused "
+         "write, so that refused requests are followed by accepted ones. A fixed grid guarantees every refusal kind "
+         "(over max_chunk_count while within max_message_size, over max_message_size, for the writer also a response that "
+         "does not fit its buffer on an unsecured channel) followed by accepted messages of one and several chunks and by "
+         "further refusals. receiver case = history of presentations on a fresh connection (server: real HEL+OPN on a None "
          "channel, or a Sign channel keyed directly) / fresh client transport state with real pending requests: valid messages "
          "of 1,2,3,5 chunks (with forward gaps), then exact replay, replay under a fresh request id, first sequence number at "
          "last accepted +{-n-1..+2}, permuted order, permuted numbers, duplicated chunk, dropped chunk, jump inside, descending, "
@@ -99,14 +124,20 @@ prop(
     design_ref="4 C12",
     level_text="Sender: over all emitted chunks the sequence number grows by exactly 1, all chunks of a message carry the "
                "request id it was written with, the ids handed out by the transport state are pairwise distinct, and the "
-               "number of messages on the wire equals the number of accepted writes. Receiver: whenever a message is "
+               "number of messages on the wire equals the number of accepted writes; a refused write puts nothing on the wire and "
+               "must not consume sequence numbers (a numbering flaw at the first chunk of a message written directly after "
+               "refused writes is named |after-refused-write=<their status>). Receiver: whenever a message is "
                "accepted (server: a response is queued; client: the request's completion resolves Ok) the chunks that were "
                "presented for it must have distinct sequence numbers forming a run without gaps, all above every "
                "previously accepted one, one request id, and the channel's id; a panic in the receive path is a violation.",
     level_note="The oracle is one-sided as the property is: rejecting a valid message is not flagged. Sets, not order: a "
                "receiver that sorts or de-duplicates chunks (the client does) is not flagged for that. On the Sign channel "
                "valid messages are single-chunk only, because reassembly of secured multi-chunk messages fails for a reason "
-               "that belongs to C07. Sender counters near u32::MAX are not reachable without 2^32 chunks.",
+               "that belongs to C07. Sender counters near u32::MAX are not reachable without 2^32 chunks. The server's "
+               "MessageWriter never splits a message (chunk size 0), so its max_chunk_count refusal is unreachable; secured "
+               "responses stay within the writer's buffer (an oversized one panics in apply_security, a send-path defect "
+               "outside this property). Histories that continue after a refused write are not produced by the stock "
+               "client/server loops, which close the connection; they are histories of the anchored mechanisms themselves.",
     shards={"quick": 8, "thorough": 16},
     timeout={"quick": 300, "thorough": 1800},
 )
